@@ -78,6 +78,8 @@
 #include "upipe-modules/upipe_audio_split.h"
 #include "upipe-modules/upipe_audio_merge.h"
 #include "upipe-modules/upipe_grid.h"
+#include "upipe-modules/upipe_rtp_h264.h"
+#include "upipe-modules/upipe_rtp_mpeg4.h"
 #include "upipe-modules/upipe_multicat_probe.h"
 #include "upipe/ubuf_pic_mem.h"
 #include "upipe/ubuf_sound_mem.h"
@@ -1426,6 +1428,18 @@ static struct uref *mk_grid(struct side *s, int seq, int sh, struct ubuf **held_
     return u;
 }
 
+/* rtp_h264: access units in Annex B form (the pipe emits one buffer per NAL unit); shape 3 ends with an end-of-sequence and an end-of-stream NAL unit, which
+ * consist of their header octet only */
+static const struct inshape tab_h264[NSHAPES] = {
+    INS("AUD+SPS", "\x00\x00\x01\x09\xf0\x00\x00\x01\x67\x42\x00\x1e", 0, false, false),
+    INS("IDR slice,4-octet start code(2 segs)", "\x00\x00\x00\x01\x65\x88\x84\x21", 5, false, false),
+    INS("empty", "", 0, false, false),
+    INS("slice+end of sequence+end of stream", "\x00\x00\x01\x41\x9a\x02\x00\x00\x01\x0a\x00\x00\x01\x0b", 0, false, false),
+    INS("no start code(2 segs,2nd shared)", "\x11\x12\x13\x14", 2, false, false),
+};
+ALLOC_VOID(rtp_h264, upipe_rtp_h264_mgr_alloc)
+ALLOC_VOID(rtp_mpeg4, upipe_rtp_mpeg4_mgr_alloc)
+
 /* ------------------------------------------------------------------ */
 /* expected transformations (documented changes), written independently   */
 /* ------------------------------------------------------------------ */
@@ -1637,6 +1651,9 @@ static const struct row rows[] = {
     {.name = "s302_framer", .kind = K_RECHUNK, .alloc = alloc_s302f, .bad_def = "block.mpegts.", .in_def = "block.s302m.sound.", .in_tab = tab_s302,
      .out_def_prefix = "block.s302m.sound."},
     {.name = "opus_framer", .kind = K_RECHUNK, .alloc = alloc_opusf, .bad_def = "block.mpegts.", .in_def = "block.opus.", .in_tab = tab_opus, .out_def_prefix = "block.opus."},
+    {.name = "rtp_h264", .kind = K_RECHUNK, .alloc = alloc_rtp_h264, .bad_def = "block.", .in_def = "block.h264.", .in_tab = tab_h264, .out_def_prefix = "block.h264."},
+    /* (ADTS frames: 7 octets of header, then the payload; the shorter shapes are refused) */
+    {.name = "rtp_mpeg4", .kind = K_RECHUNK, .alloc = alloc_rtp_mpeg4, .bad_def = "block.", .in_def = "block.aac.sound.", .in_scale = 4, .out_def_prefix = "block.aac.sound."},
     {.name = "void_source", .kind = K_RECHUNK, .alloc = alloc_voidsrc, .uses_pumps = true, .endless = true, .out_def_prefix = "void."},
     /* picture and sound inputs (buffers from the upstream's own picture / sound manager) */
     {.name = "separate_fields", .kind = K_RECHUNK, .alloc = alloc_separate_fields, .bad_def = "block.", .in_def = "pic.", .flow_fix = fix_pic, .mk_input = mk_pic,
